@@ -410,3 +410,67 @@ def c15j(ctx):
     me = ctx.fn(A + ':ThreadPool.map_each')
     starts = [s for s in me.walk() if isinstance(s, ast.Assign) and unparse(s.targets[0]) == 'self.pool' and is_call(s.value, 'self._init_pool')]
     ctx.check(len(starts) == 1, 'ThreadPool.map_each:keeps-started-threads', 'the started threads are kept in self.pool', me)
+
+
+@rule('C15.k', floor=3)
+def c15k(ctx):
+    """one result per input reaches the caller -- also when the caller only wants to know whether all went well: the results of a fan-out
+    are collected completely (map / list(imap)) before they are reduced.  `all(pool.imap(..))` / `any(..)` stops pulling at the first
+    deciding result: the exceptions of the items after it are never raised, and the call returns while those items still run"""
+    n = 0
+    for rel, mod in sorted(ctx.repo.modules.items()):
+        if '/test/' in rel or not rel.startswith('mapproxy/'):
+            continue
+        for fn in ctx.repo.fns_in(rel + ':'):
+            if '#' in fn.qn:
+                continue
+            for x in fn.walk():
+                if not (isinstance(x, ast.Call) and isinstance(x.func, ast.Name) and x.func.id in ('all', 'any', 'next') and x.args):
+                    continue
+                a = fn.canon.expr(x.args[0])
+                lazy = [y for y in ast.walk(a) if isinstance(y, ast.Call) and (simple_name(y) in ('imap', 'starmap', 'starcall', 'map_each') and
+                                                                              not (isinstance(getattr(y, '_parent', None), ast.Call) and
+                                                                                   simple_name(getattr(y, '_parent', None)) in ('list', 'tuple')))]
+                eager = [y for y in ast.walk(a) if isinstance(y, ast.Call) and isinstance(y.func, ast.Attribute) and y.func.attr == 'map' and
+                         'ool' in unparse(fn.canon.expr(y.func.value))]
+                if not lazy and not eager:
+                    continue
+                n += 1
+                # (imap written inside a comprehension that all() consumes is lazy as well; a list comprehension is not)
+                ok = not lazy or all(_inside_list(y, a) for y in lazy)
+                ctx.check(ok, '%s:%s-of-complete-results' % (fn.short, x.func.id), '%s() reduces a completely collected result list' % x.func.id, fn, x,
+                          fail='%s(%s) consumes the lazy result iterator of the pool: it stops at the first deciding item, later exceptions are '
+                               'swallowed and later items still run when the call returns' % (x.func.id, unparse(x.args[0])[:50]))
+    imap = ctx.fn(A + ':ThreadPool.imap')
+    mp = ctx.fn(A + ':ThreadPool.map')
+    ok = any(is_call(r.value, 'list') and contains(r.value, lambda y: is_call(y, 'self.imap')) for r in returns_of(mp.node) if r.value is not None)
+    ctx.check(ok, 'ThreadPool.map:collects', 'map() is list(imap()): every result is fetched', mp)
+    ctx.check(n >= 1, 'fan-out:reduced-results', '%d reduction(s) over pool results found' % n, imap)
+
+
+def _inside_list(y, top):
+    p = getattr(y, '_parent', None)
+    while p is not None:
+        if isinstance(p, ast.ListComp):
+            return True
+        if isinstance(p, ast.Call) and simple_name(p) in ('list', 'tuple', 'sorted'):
+            return True
+        if p is top:
+            break
+        p = getattr(p, '_parent', None)
+    return False
+
+
+@rule('C15.l', floor=2)
+def c15l(ctx):
+    """no result is attributed to another call: a pool that is stopped because an item failed (shutdown(force=True)) throws away what
+    is still queued on *both* sides -- the tasks that were not started and the results that were not fetched.  Results left in the
+    result queue belong to the call that was stopped; the next call on the same pool would read them first and hand them out as the
+    results of its own items 0, 1, .."""
+    sd = ctx.fn(A + ':ThreadPool.shutdown')
+    g = sd.cfg
+    cons = g.find(lambda x: is_call(x, '_consume_queue') and x.args)
+    qs = {unparse(x.args[0]) for n, x in cons if g.guarded(n, lambda at: at.op is None and unparse(at.expr) == 'force', True)}
+    for q in ('self.task_queue', 'self.result_queue'):
+        ctx.check(q in qs, 'ThreadPool.shutdown:force-empties-%s' % q.split('.')[-1], 'a forced shutdown empties %s' % q, sd,
+                  fail='shutdown(force=True) leaves %s as it is: what is queued there turns up in the next call on this pool' % q)
